@@ -167,3 +167,33 @@ def register(S):
                raises={"BaseException": {"props": P17 + ["C16"], "modifies": ["self.fd_to_conn", "self.clients"],
                                          "state": ["implies(exc_is(exc, 'Exception'), raised_by_attr('close'))"]}},
                modifies=["self.fd_to_conn", "self.clients"])
+
+    # ---- the forking server's SIGCHLD handler: drains EVERY terminated child (signals do not queue: one delivery may stand for
+    # several children), then re-installs itself.  os.waitpid / signal.signal are model externals with ghost events ---------------
+    S.external("os_waitpid", params={"self_arg": "any", "pid": "val", "options": "val"}, result="val",
+               note="os.waitpid(-1, WNOHANG): a pair (pid, status) - pid > 0: that child was reaped, 0: children exist but none has "
+                    "terminated - or OSError (ECHILD: no children); ghost event Waitpid(pid asked, pid answered)",
+               outcomes=[{"label": "reaped one", "assume": ["is_pair(result) and istuple(result) and is_int(nth_item(result, 0)) and as_int(nth_item(result, 0)) > 0"],
+                          "events": [("Waitpid", "pid", "nth_item(result, 0)")]},
+                         {"label": "none left", "assume": ["is_pair(result) and istuple(result) and is_int(nth_item(result, 0)) and as_int(nth_item(result, 0)) <= 0"],
+                          "events": [("Waitpid", "pid", "nth_item(result, 0)")]},
+                         {"label": "fails", "raise": "OSError", "events": [("Waitpid", "pid", "'raise'")]}])
+    S.external("signal_signal", params={"self_arg": "any", "signum": "val", "handler": "val"}, result="val",
+               note="signal.signal: ghost event Signal(signum, handler); returns the previous handler",
+               outcomes=[{"label": "ok", "events": [("Signal", "signum", "handler")]}])
+    DRAINED = ("n_ev('Waitpid') == 1 and ev_val('Waitpid', 0, 1) == -1 and "
+               "(ev_val('Waitpid', 0, 2) == 'raise' or (is_int(ev_val('Waitpid', 0, 2)) and as_int(ev_val('Waitpid', 0, 2)) <= 0))")
+    S.contract(F + "ForkingServer._handle_sigchld", params={"cls": "val", "signum": "val", "unused": "val"}, self_name="cls",
+               dynamic_errors=True, effects={"normal": (0, 0), "raise": (0, 0)},
+               abstract_calls={"os.waitpid": "os_waitpid", "signal.signal": "signal_signal"},
+               loops={0: {"invariant": [], "local_trace": True, "props": P17,
+                          # an iteration that goes round again reaped exactly one child (any wildcard wait)
+                          "body_events": ["n_events() == 1 and n_ev('Waitpid') == 1 and ev_val('Waitpid', 0, 1) == -1 and "
+                                          "is_int(ev_val('Waitpid', 0, 2)) and as_int(ev_val('Waitpid', 0, 2)) > 0"]}},
+               ensures={
+                   # the handler stops asking only when the system said `no terminated child left` (or no children at all): the
+                   # events after the loop summary are those of the last, incomplete iteration
+                   "reaps_until_none_is_left": (DRAINED, P17),
+                   "reinstalls_itself": ("n_ev('Signal') == 1 and n_ev('GetAttr') == 1 and same(ev_val('GetAttr', 0, 1), cls) and "
+                                         "ev_val('GetAttr', 0, 2) == '_handle_sigchld' and same(ev_val('Signal', 0, 2), ev_val('GetAttr', 0, 3))", P17)},
+               raises={"BaseException": {"props": P17, "modifies": []}}, modifies=[])
